@@ -61,10 +61,12 @@ TRIVIA = {
     # implicit whitespace that is a compound-atomic / a non-atomic rule (its own pair is visible even inside an atomic caller)
     "ws_compound": (("WHITESPACE", "$", S(" ")),),
     "ws_nonatomic": (("WHITESPACE", "!", S(" ")),),
+    # an implicit rule that READS the stack: whether it matches at a position depends on what was pushed since it was last tried there
+    "ws_pop": (("WHITESPACE", "_", ("pop",)),),
     "cm_pred": (("COMMENT", "_", ("seq", (S("#"), ("star", ("grp", ("seq", (("not", ("grp", ("alt", (S("!"), R("EOI"))))), R("ANY")))))))),),
 }
 TRIVIA_SIGMA = {
-    "none": "", "ws": " ", "ws_loud": " ", "cm2": "#!", "both": " #!", "ws_choice": " \t", "cm1": "#", "both_loud": " #", "ws_overlap": "", "cm_pred": "#!", "ws_pairs": " .", "both_overlap": " #", "cm_nonatomic": "#!", "cm_stack": " #!", "ws_compound": " ", "ws_nonatomic": " ",
+    "none": "", "ws": " ", "ws_loud": " ", "cm2": "#!", "both": " #!", "ws_choice": " \t", "cm1": "#", "both_loud": " #", "ws_overlap": "", "cm_pred": "#!", "ws_pairs": " .", "both_overlap": " #", "cm_nonatomic": "#!", "cm_stack": " #!", "ws_compound": " ", "ws_nonatomic": " ", "ws_pop": "",
 }
 
 
@@ -236,7 +238,7 @@ def length_for(alphabet: str, max_inputs: int) -> int:
 
 
 def c01_specs(tier: str, kmode: str = "zero", terminals=T_FULL, soi_free: bool = False, extra_sigma: str = "", max_inputs: int | None = None, extra_trivia=(), sigma_core: str | None = None,
-              lean: bool = False):
+              lean: bool = False, ctx2_trivia=()):
     """lean (quick tier of the checks that multiply the work by every start position): the n<=3 row with normal rules and no trivia only,
     contexts without trivia only."""
     b = c01_bounds(tier, lean)
@@ -278,7 +280,7 @@ def c01_specs(tier: str, kmode: str = "zero", terminals=T_FULL, soi_free: bool =
                     starts.append((extra, start))
                 out.extend(batch_specs(starts, TRIVIA[tv] + HELPERS, ins, kmode, f"ctx({cname},hole<={hole_n},{tv})"))
     names = CTX2_LEAN if (lean and tier == "quick") else (CTX2_QUICK if tier == "quick" else None)
-    out.extend(ctx2_specs(kmode, tier, terminals, ("none",) if tier == "quick" else ("none", "ws"), names, (sigma_core or SIGMA_CORE), extra_sigma, min(mi, 45)))
+    out.extend(ctx2_specs(kmode, tier, terminals, (("none",) if tier == "quick" else ("none", "ws")) + tuple(ctx2_trivia), names, (sigma_core or SIGMA_CORE), extra_sigma, min(mi, 45)))
     return out + extra_specs(kmode, tier)
 
 
@@ -302,7 +304,7 @@ def extra_specs(kmode: str = "zero", tier: str = "quick"):
         for e in operands:
             for form in count_forms(3 if tier == "quick" else 4):
                 rep = (form[0], e) + tuple(form[1:])
-                for body in (rep, ("seq", (rep, S("a"))), ("seq", (rep, R("EOI"))), ("alt", (("seq", (rep, S("b"))), ("star", R("ANY"))))):
+                for body in (rep, ("seq", (rep, S("a"))), ("seq", (rep, R("EOI"))), ("alt", (("seq", (rep, S("b"))), ("star", R("ANY")))), ("alt", (rep, e, S("b")))):
                     for mod in ("", "@"):
                         starts.append(((), (mod, body)))
         sigma = SIGMA_CORE + TRIVIA_SIGMA[tv]
@@ -532,7 +534,7 @@ SKIP_RULE_TEXT = ("; plus skip shapes: (!stop ~ ANY)* with stop in {\"b\", (\"b\
                   "re-evaluated after backtracking, through a rule called twice, under & and ?), under the rule modifiers normal / @ / ! (C04 and thorough: all five), with trivia none / WHITESPACE (C04 and thorough: also a one-character COMMENT), "
                   "inputs over {a,b,B}+trivia up to length 4 (3 with trivia or with every start position)")
 
-EXTRA_RULE_TEXT = ("; plus (c) counts: every bound {m} {m,} {,n} {m,n} with counts 0..3 (zero counts included) over \"a\", n and (\"ab\"|\"a\"), alone / before \"a\" / before EOI / in an abandoned alternative, normal and atomic, without and with implicit whitespace; "
+EXTRA_RULE_TEXT = ("; plus (c) counts: every bound {m} {m,} {,n} {m,n} with counts 0..3 (zero counts included) over \"a\", n and (\"ab\"|\"a\"), alone / before \"a\" / before EOI / in an abandoned alternative / as a direct first alternative, normal and atomic, without and with implicit whitespace; "
                    "(c3) zero-width repetitions: DROP, (&DROP ~ POP), (DROP ~ \"a\"?) under * + {1,} ? {,2} after one or two PUSH_LITERALs, followed by nothing / \"b\" / PEEK_ALL / \"a\"*, under implicit whitespace, in normal, ! and @ rules; "
                    "(c4) postfix chains: every counted or plain repetition of \"a\" / n followed directly by a second postfix operator (e{2}+, e{1,2}*, e+{2} ...), inputs over {a,b} up to length 7; (c2) empty-ranges: every expression with <= 3 nodes over {'b'..'a', ('b'..'a' | 'z'..'y'), ('b'..'a' | 'z'..'y' | '9'..'0'), \"a\"}; (d) newline: every expression with <= 2 nodes over {NEWLINE, \"a\", \"\\n\", ANY} on every string over {a, \\r, \\n} up to length 4, also with WHITESPACE = _{ NEWLINE | \" \" }")
 
